@@ -19,12 +19,12 @@ theorem new_ok (A : View α)   : new A  = .ok (s0 A ) := by
 
 @[simp] def abs (A : View α) (s : State α A.σ) : A.σ × WelfordRollingState α := (s.view, { mean := s.mean, s := s.s, n := s.n })
 
-theorem upd_eq (A : View α) (s : State α A.σ) (x : α)  :
+theorem upd_eq (A : View α)  (s : State α A.σ) (x : α)  :
     (update A s x).map (abs A) = (wrap A welfordRollingCore).upd (abs A s) x := by
   simp only [update, wrap, mapV, binop, welfordRollingCore, variance, WelfordRollingState.variance, abs]; gen_tie
 theorem upd_cfg (A : View α) (s s' : State α A.σ) (x : α) : update A s x = .ok s' → True := by
   simp only [update, welfordRollingCore, variance, WelfordRollingState.variance]; gen_tie
-theorem last_eq (A : View α) (s : State α A.σ)  : last A s = (wrap A welfordRollingCore).last (abs A s) := by
+theorem last_eq (A : View α)  (s : State α A.σ)  : last A s = (wrap A welfordRollingCore).last (abs A s) := by
   simp only [last, wrap, mapV, binop, welfordRollingCore, variance, WelfordRollingState.variance, abs]; gen_tie
 
 def sim (A : View α)   : Sim (mkView (s0 A ) (update A) (last A)) (wrap A welfordRollingCore) where
